@@ -95,7 +95,7 @@ def combine (rs : List String) : String :=
 
 def withAfter (cs : List B) (p : Peer) : List B := if p.after.isEmpty then cs else cs ++ [p.after]
 
-def handleServer (toks : List String) : String :=
+def handleServerOne (toks : List String) : String :=
   match toks with
   | [sec, cert, peer, script, segs] =>
     match parseCert cert, parsePeer peer, parseScript script with
@@ -120,7 +120,7 @@ def cliStr (must : String) (r : CliResult) : String :=
   | .failed .panic => "PANIC"
   | .failed _ => "error" ++ w
 
-def handleClient (toks : List String) : String :=
+def handleClientOne (toks : List String) : String :=
   match toks with
   | [sec, mgr, must, peer, script, segs] =>
     match parsePeer peer, parseScript script with
@@ -133,6 +133,33 @@ def handleClient (toks : List String) : String :=
       | none => "bad-op"
     | _, _ => "bad-op"
   | _ => "bad-op"
+
+/-! ## several connections at the same moment (`par <G> <iters> <op> ; <op> ; …`)
+
+  The models are functions of the one connection's configuration and byte stream: nothing a handshake could leave
+  behind for, or share with, another one.  So the model of G goroutines handling the listed connections at the same
+  moment, again and again, is the list of the single outcomes — whatever G, the repetitions and the interleaving. -/
+
+/-- split an op list at the separator token `;` -/
+def splitOps : List String → List (List String)
+  | [] => [[]]
+  | t :: rest =>
+    match splitOps rest with
+    | [] => [[t]]          -- unreachable: splitOps never returns []
+    | cur :: more => if t == ";" then [] :: cur :: more else (t :: cur) :: more
+
+/-- outcomes of a batch: pointwise the outcomes of the single connections -/
+def handleBatch (one : List String → String) (ops : List (List String)) : List String := ops.map one
+
+def handlePar (one : List String → String) : List String → String
+  | "par" :: g :: iters :: rest =>
+    let ops := splitOps rest
+    if g.toNat?.isNone || iters.toNat?.isNone || ops.any (fun o => o.isEmpty || o.head? == some "par") then "bad-op"
+    else String.intercalate " ; " (handleBatch one ops)
+  | ts => one ts
+
+def handleServer : List String → String := handlePar handleServerOne
+def handleClient : List String → String := handlePar handleClientOne
 
 def entries : List (String × (List String → String)) :=
   [("hs-server", handleServer), ("hs-client", handleClient)]
